@@ -110,6 +110,7 @@ func main() {
 		{"MaskProg.lean", genMask},
 		{"Facts.lean", genFacts},
 		{"IntFns.lean", genIntFns},
+		{"Skeleton.lean", genSkeleton},
 	}
 	for _, g := range gens {
 		s, err := g.fn(p)
